@@ -206,6 +206,9 @@ def breaker_docs(ver, filler, k):
         r1 = row1 if row1 is not None else '%s,"mid","end"' % fv
         return '\n'.join([header, cols, r1, row2, ''])
     yield 'header-dropped', '\n'.join(doc().split('\n')[1:])
+    for lead in ('\n', '\n\n', '\r\n\r\n', ' \n', '\n \n'):
+        # a document starts with its version header: there is no (empty) grid in front of the first one
+        yield 'leading-blank-lines', lead + doc()
     yield 'header-unquoted', doc(header='ver:%s site' % ver)
     yield 'header-empty-version', doc(header='ver:"" site')
     yield 'header-capitalised', doc(header='Ver:"%s"' % ver)
@@ -216,6 +219,10 @@ def breaker_docs(ver, filler, k):
     yield 'unterminated-string-in-meta', doc(header='ver:"%s" dis:"D' % ver)
     yield 'unterminated-uri', doc(row1='%s,"mid",`http://x' % fv)
     yield 'illegal-escape-q', doc(row1='%s,"mi\\qd","end"' % fv)
+    for esc in ('\\/', "\\'", '\\a', '\\0', '\\x41', '\\ ', '\\:', '\\`', '\\u 041', '\\u004'):
+        yield 'illegal-string-escape', doc(row1='%s,"mi%szd","end"' % (fv, esc))
+    for esc in ('\\q', '\\"', '\\$', '\\ ', '\\u00', '\\x41'):
+        yield 'illegal-uri-escape', doc(row1='%s,"mid",`a%szb`' % (fv, esc))
     yield 'illegal-escape-u', doc(row1='%s,"mi\\u12G4d","end"' % fv)
     yield 'trailing-backslash', doc(row1='%s,"mid","end\\"' % fv)
     yield 'illegal-uri-escape', doc(row1='%s,"mid",`a\\qb`' % fv)
@@ -247,7 +254,7 @@ BOUNDARY_SCALARS = [
     '2020-01-01T00:00:00+99:99 UTC', '2020-01-01T00:00:00Z Nowhere_Land', '1e999', '-1e999', '1e-999', '9' * 400, '0.' + '9' * 400,
     '1' + '_' * 50 + '0', 'C(91,181)', 'C(1e5,2)', 'C(,)', 'C(-,-)', '@', '@ "x"', 'Bin()', 'Bin(', '""', '``', '"\\u"', '"\\ud800"',
     '"\\udfff\\ud800"', '`\\u12`', 'T' * 50, 'NA' * 30, '[' * 3 + ']' * 3, '{' * 3 + '}' * 3, '<<' * 2 + '>>' * 2, '{a:{b:{c:1}}}',
-    '[[[1]]]', '5' + u'\xb5' * 100, '1kW' * 20, '- 1', '--1', '+1', '.5', '5.', '1e', '1e+', 'INFkW', 'NaNm', '-NaN', 'inf', 'nan',
+    '[[[1]]]', '`a\\;b`', '`\\:\\/\\?\\#\\[\\]\\@\\&\\=\\;`', '`\\q`', '`\\u00e9`', '`\\\\`', '`\\``', '"\\/"', '5' + u'\xb5' * 100, '1kW' * 20, '- 1', '--1', '+1', '.5', '5.', '1e', '1e+', 'INFkW', 'NaNm', '-NaN', 'inf', 'nan',
     u'\ufeff1', u'1\u2028', 'hex("zz")', 'b64("!!!")', 'hex("abc")', 'Foo("' + 'x' * 300 + '")', 'x' * 5000,
 ]
 
@@ -266,7 +273,7 @@ def plan(tier, seed, excl):
     return t
 
 
-TOKENS = ['0001-01-01T00:00:00+10:00 Brisbane', '9999-12-31T23:59:59-10:00 Honolulu', '0001-01-01', '9999-12-31', 'ver:"3.0"', 'ver:"2.0"', '\n', '\n', ',', ' ', 'a', 'b', 'dis:', '"x"', '"', '`u`', '`', '@r', '@r "d"', 'N', 'M', 'R', 'NA',
+TOKENS = ['`a\\;b`', '\\;', '\\/', '\\#', '0001-01-01T00:00:00+10:00 Brisbane', '9999-12-31T23:59:59-10:00 Honolulu', '0001-01-01', '9999-12-31', 'ver:"3.0"', 'ver:"2.0"', '\n', '\n', ',', ' ', 'a', 'b', 'dis:', '"x"', '"', '`u`', '`', '@r', '@r "d"', 'N', 'M', 'R', 'NA',
           'T', 'F', '1', '-1.5e3', '5kW', 'INF', '-INF', 'NaN', '2020-01-01', '12:00:00', '2020-01-01T00:00:00Z UTC',
           '2020-01-01T00:00:00+10:00 Brisbane', 'C(1,2)', 'Bin(text/plain)', 'Bin("x")', 'Foo("x")', '[', ']', '{', '}', '<<', '>>',
           ':', '\\', '\\u00e9', '\r\n', '\n\n', '_', '.', '-', '(', ')', '$', 'e', 'Z', '0', '9999', '\t', '*', '\x00', u'\xe9', u'\U0001F600']
